@@ -124,7 +124,10 @@ void janet_stacktrace_ext(JanetFiber *fiber, Janet err, const char *prefix) {
         int32_t i = fiber->frame;
         while (i > 0) {
             JanetCFunRegistry *reg = NULL;
-            JanetStackFrame *frame = (JanetStackFrame *)(fiber->data + i - JANET_FRAME_SIZE);
+            /* Printing can run Janet code (a function bound to :err) on the fiber being printed, and that
+             * can move its stack: work on a copy of the frame header, not on a pointer into fiber->data. */
+            JanetStackFrame frame_copy = *(JanetStackFrame *)(fiber->data + i - JANET_FRAME_SIZE);
+            JanetStackFrame *frame = &frame_copy;
             JanetFuncDef *def = NULL;
             i = frame->prevframe;
 
